@@ -417,6 +417,9 @@ pub fn models(tier: Tier, seed: u64) -> Vec<Box<dyn DynModel>> {
         // operation histories over both groups: the bytes are the IETF values whatever ran before
         bounded(h, d),
     ]
+    .into_iter()
+    .chain(crate::props::aggx::models("C03", tier, seed))
+    .collect()
 }
 
 pub fn describe(_tier: Tier, r: &mut Report) {
